@@ -23,7 +23,7 @@ WRAP = ["-Wl,--wrap=malloc,--wrap=calloc,--wrap=realloc,--wrap=free"]
 
 
 def init_state(level, n):
-    return {"blocks": ["never"] * n, "level": level, "sizes": [0] * n, "table": []}
+    return {"after": "ok", "blocks": ["never"] * n, "level": level, "sizes": [0] * n, "table": []}
 
 
 def argclass(e):
@@ -31,7 +31,7 @@ def argclass(e):
     op, a, pre = e["op"], e["args"], e["pre"]
     tab = [r["id"] for r in pre["table"]]
     live = [i + 1 for i, s in enumerate(pre["blocks"]) if s == "live"]
-    parts = ["active" if pre["level"] >= 5 else "inactive", "live=%d" % len(live)]
+    parts = ["active" if pre["level"] >= 5 else "inactive", "live=%d" % len(live)] + (["after-refusal"] if pre.get("after") == "refused" else [])
 
     def pcls(p):
         if p == 0:
